@@ -9,6 +9,7 @@ The `Printable` hypothesis of part 2 is discharged here from C18's print→parse
 -/
 import Strengths.Props.C12
 import Strengths.Proofs.DictPrintable
+import Strengths.Proofs.DictAlias
 
 namespace Strengths.C12
 open Strengths Strengths.Gen Strengths.Dict
@@ -902,5 +903,56 @@ theorem example_wf :
       subst hc
       exact ⟨_, _, _, _, _, rfl, by decide +kernel, by decide +kernel, rfl, by decide +kernel, rfl⟩⟩
   exact ⟨hs, hr, hn, hg, _, _, _, _, _, rfl, by decide +kernel, hn, .inr hg, by decide +kernel, rfl, by decide +kernel⟩
+
+/-! ## alias interchangeability, for every reader and every synonym the source accepts -/
+
+/-- on the key list each writer emits, at every position, for every synonym of that key's group: the key-level
+conditions under which `process_input_dict_keys` handles the synonym (checked on the regenerated tables) -/
+theorem alias_checks_all :
+    ∀ t ∈ DictKeys.all, ∀ i < (written t).length, ∀ g ∈ t.aliases, g.head? = (written t)[i]? → ∀ a ∈ g.tail,
+      aliasCheck t.aliases ((written t).take i) ((written t).drop (i + 1)) a ((written t).getD i "") g.tail = true := by
+  decide +kernel
+
+/-- **alias_interchangeable**: take any dictionary carrying the keys a writer emits (any values at all, well-formed or
+not), and spell one of its keys with any synonym its reader accepts: the generic reader — hence every `*_from_dict` of
+the model, which are instances of it — returns exactly the same result (same object or same error).
+The fields may be any schema that looks up canonical keys only. -/
+theorem alias_interchangeable {χ} (t : DictKeys.Table) (ht : t ∈ DictKeys.all) (fields : List Field) (parent : Sys) (base : Option String)
+    (fs : FS) (rc : String → Sys → Option String → Json → Res χ)
+    (pre post : KV) (c a : String) (r : List String) (v : Json)
+    (hg : (c :: r) ∈ t.aliases) (ha : a ∈ r)
+    (hkeys : (pre ++ (c, v) :: post).map (·.1) = written t)
+    (hfk : ∀ f ∈ fields, f.key ∈ canonical t) :
+    fromDictG t fields parent base fs rc (.obj (pre ++ (a, v) :: post)) =
+      fromDictG t fields parent base fs rc (.obj (pre ++ (c, v) :: post)) := by
+  have hlen : pre.length < (written t).length := by
+    rw [← hkeys]; simp
+  have hsplit : written t = pre.map (·.1) ++ c :: post.map (·.1) := by rw [← hkeys]; simp
+  have hi : (written t)[pre.length]? = some c := by
+    rw [hsplit, List.getElem?_append_right (by simp)]; simp
+  have htake : (written t).take pre.length = pre.map (·.1) := by
+    rw [hsplit]; simp [List.take_append]
+  have hdrop : (written t).drop (pre.length + 1) = post.map (·.1) := by
+    rw [hsplit]
+    have : pre.length + 1 = (pre.map (·.1) ++ [c]).length := by simp
+    rw [this, show pre.map (·.1) ++ c :: post.map (·.1) = (pre.map (·.1) ++ [c]) ++ post.map (·.1) by simp,
+      List.drop_left]
+  have hget : (written t).getD pre.length "" = c := by
+    rw [List.getD_eq_getElem?_getD, hi]; rfl
+  have hchk := alias_checks_all t ht pre.length hlen (c :: r) hg (by rw [hi]; rfl) a ha
+  rw [htake, hdrop, hget] at hchk
+  obtain ⟨hcase, hn, h1, h2, h3⟩ := AliasCase.of_check t.aliases pre post a c r v hchk
+  refine alias_interchangeable_generic t fields parent base fs rc hcase hn ⟨h1, h2, ?_⟩
+  intro f hf heq
+  exact h3 (heq ▸ hfk f hf)
+
+/-- instance: a species dictionary with `density` spelled `conc` (any values) -/
+example (parent : Sys) (vl vD vd vc vu : Json) :
+    speciesFromDict parent (.obj [("label", vl), ("D", vD), ("conc", vd), ("chstt", vc), ("units", vu)]) =
+    speciesFromDict parent (.obj [("label", vl), ("D", vD), ("density", vd), ("chstt", vc), ("units", vu)]) := by
+  unfold speciesFromDict
+  exact alias_interchangeable DictKeys.species (by decide +kernel) speciesFields parent none _ noChild
+    [("label", vl), ("D", vD)] [("chstt", vc), ("units", vu)] "density" "conc" ["concentration", "dens", "conc", "C"] vd
+    (by decide +kernel) (by decide +kernel) rfl (by decide +kernel)
 
 end Strengths.C12
